@@ -324,6 +324,7 @@ def c16(run):
     r1 = run.rule
     run.rule = r1 + "  ||  " + fcands(run, "C16", "ansi")
     dict_pass(run)
+    design_candidates(run, ["AnsiGate"], 1, 2)
 
 
 def c18(run):
@@ -331,6 +332,7 @@ def c18(run):
     cands(run, "C18", "emoji")
     r1 = run.rule
     run.rule = r1 + "  ||  " + fcands(run, "C18", "emoji")
+    design_candidates(run, ["EmojiTableOrder", "NoEmojiBeforeExact"], 1, 3)
 
 
 def dict_pass(run):
@@ -343,8 +345,20 @@ def dict_pass(run):
                  "Bengali-block code point, must equal poriborton's encoding" % ("every 4th" if q else "EVERY", "1/6 of the" if q else "all", "singly and after ক" if q else "singly and in every pair"))
 
 
+def design_candidates(run, invariants, maxdict, maxemoji):
+    tlc, s = run_tlc_replay(run, "MC_Candidates", "MC_Candidates.tla",
+                            dict(spec="Spec", constants={"MaxDict": maxdict, "MaxEmoji": maxemoji}, invariants=invariants),
+                            run.pid, workers=12, threads=1, timeout=7000)
+    run.add(tlc, None)
+    run.rule += ("  ||  design level: MC_Candidates (transcript of list assembly: five sources, the Rank comparator, duplicate checks, stable insertion sort) checked "
+                 "against %s for every multiset of <= %d dictionary facts over 4 text tokens x 3 distances, optional auto-correct, <= %d emoji, emoticon, coinciding raw "
+                 "text, English / ANSI (%d states)" % (", ".join(invariants), maxdict, maxemoji, tlc["states"]))
+
+
 def c07(run):
     cands(run, "C07", "order")
+    design_candidates(run, ["NoDuplicates", "AcFirst", "DictNonDecreasing", "TranslitAfterDict", "EnglishLast", "NoEmojiBeforeExact", "NeverEmpty",
+                            "CmpTransitiveHere"], 2 if run.quick() else 3, 2 if run.quick() else 3)
 
 
 def c08(run):
